@@ -675,10 +675,30 @@ fn c15_ranged(r: &mut Rng, cnt: &mut Counters, tr: &mut Option<std::fs::File>) {
     let mut fonts: Vec<(String, Vec<u8>)> = Vec::new();
     for cov in [0u32, 0x4000_0000, 0x2000_0000] {
         let mut f = FontSpec::basic(12);
-        f.feat = Some(Feat { names: vec![FeatName { feature: 37, settings: vec![0, 1], exclusive: true, default_index: None }, FeatName { feature: 1, settings: vec![2, 3, 4, 5], exclusive: false, default_index: None }] });
+        f.feat = Some(Feat { names: vec![FeatName { feature: 1, settings: vec![2, 3, 4, 5], exclusive: false, default_index: None }, FeatName { feature: 37, settings: vec![0, 1], exclusive: true, default_index: None }] });
         let nonctx = |flags: u32| MorxSubtable { coverage: cov, sub_feature_flags: flags, kind: MorxKind::NonContextual(AatLookup::new(6, (1..6u16).map(|g| (g, g + 5)).collect())) };
         f.morx = Some(Morx { version: 2, chains: vec![MorxChain { default_flags: 0, features: vec![MorxFeature { feature_type: 37, feature_setting: 1, enable_flags: 1, disable_flags: 0xFFFF_FFFF }, MorxFeature { feature_type: 1, feature_setting: 2, enable_flags: 2, disable_flags: 0xFFFF_FFFF }], subtables: vec![nonctx(1), nonctx(2)] }] });
         fonts.push((format!("generated:morx-feat-cov{:x}", cov), build(&f)));
+    }
+    for cov in [0u32, 0x4000_0000] {
+        // a contextual subtable whose only action fires on the END-OF-TEXT transition: every glyph sets the mark, end of
+        // text substitutes the marked (= last) glyph.  Whether it fires is decided by the range of the LAST glyph's cluster
+        let mut f = FontSpec::basic(12);
+        f.feat = Some(Feat { names: vec![FeatName { feature: 1, settings: vec![2, 3, 4, 5], exclusive: false, default_index: None }, FeatName { feature: 37, settings: vec![0, 1], exclusive: true, default_index: None }] });
+        let table = StateTable {
+            n_classes: 5,
+            class_lookup: AatLookup::new(2, (1..6u16).map(|g| (g, 4)).collect()),
+            // states: 0 start of text, 1 start of line, 2 marked; classes: 0 end of text, 1 out of bounds, 2 deleted, 3 end of line, 4 letter
+            states: vec![vec![0, 0, 0, 0, 1], vec![0, 0, 0, 0, 1], vec![2, 0, 1, 0, 1]],
+            entries: vec![
+                CtxEntry { new_state: 0, flags: 0, mark_index: 0xFFFF, current_index: 0xFFFF },
+                CtxEntry { new_state: 2, flags: 0x8000, mark_index: 0xFFFF, current_index: 0xFFFF },
+                CtxEntry { new_state: 0, flags: 0, mark_index: 0, current_index: 0xFFFF },
+            ],
+        };
+        let ctx = |flags: u32| MorxSubtable { coverage: cov, sub_feature_flags: flags, kind: MorxKind::Contextual { table: table.clone(), substitutions: vec![AatLookup::new(6, (1..6u16).map(|g| (g, g + 5)).collect())] } };
+        f.morx = Some(Morx { version: 2, chains: vec![MorxChain { default_flags: 0, features: vec![MorxFeature { feature_type: 37, feature_setting: 1, enable_flags: 1, disable_flags: 0xFFFF_FFFF }, MorxFeature { feature_type: 1, feature_setting: 2, enable_flags: 2, disable_flags: 0xFFFF_FFFF }], subtables: vec![ctx(2)] }] });
+        fonts.push((format!("generated:morx-feat-end-of-text-cov{:x}", cov), build(&f)));
     }
     {
         // two features that are off by default, each with a visible effect of its own: smcp maps 1..5 to 6..10, ss01 then
@@ -707,7 +727,8 @@ fn c15_ranged(r: &mut Rng, cnt: &mut Counters, tr: &mut Option<std::fs::File>) {
             let nf = 1 + r.below(2);
             let ranges: Vec<(String, u32, u32)> = (0..nf).map(|k| {
                 let a = r.below(maxc as u64 + 2) as u32;
-                let b = a + r.below((maxc + 3 - a) as u64) as u32;
+                // a third of the ranges end exactly one past the last cluster (the range "to the end of this text")
+                let b = if r.chance(1, 3) && a <= maxc { maxc + 1 } else { a + r.below((maxc + 3 - a) as u64) as u32 };
                 ((if (k + j as u64) % 2 == 0 { "smcp" } else if gsub_font { "ss01" } else { "liga" }).to_string(), a, b)
             }).collect();
             let off = r.below(5000) as u32;
@@ -1687,7 +1708,7 @@ fn c01gen(tr: &mut Option<std::fs::File>) {
     //     32-bit range (the per-chain feature ranges must cover every cluster value)
     {
         let mut f = FontSpec::basic(12);
-        f.feat = Some(Feat { names: vec![FeatName { feature: 37, settings: vec![0, 1], exclusive: true, default_index: None }, FeatName { feature: 1, settings: vec![2, 3, 4, 5], exclusive: false, default_index: None }] });
+        f.feat = Some(Feat { names: vec![FeatName { feature: 1, settings: vec![2, 3, 4, 5], exclusive: false, default_index: None }, FeatName { feature: 37, settings: vec![0, 1], exclusive: true, default_index: None }] });
         let nonctx = |flags: u32| MorxSubtable { coverage: 0, sub_feature_flags: flags, kind: MorxKind::NonContextual(AatLookup::new(6, (1..6u16).map(|g| (g, g + 5)).collect())) };
         f.morx = Some(Morx { version: 2, chains: vec![MorxChain { default_flags: 0, features: vec![MorxFeature { feature_type: 37, feature_setting: 1, enable_flags: 1, disable_flags: 0xFFFF_FFFF }, MorxFeature { feature_type: 1, feature_setting: 2, enable_flags: 2, disable_flags: 0xFFFF_FFFF }], subtables: vec![nonctx(1), nonctx(2)] }] });
         for feats in [vec!["smcp[1:3]"], vec!["smcp[0:2]", "liga[2:9]"], vec!["smcp[4294967294:4294967295]"], vec!["liga[1:4294967295]", "smcp[3:4]"]] {
